@@ -651,6 +651,16 @@ func buildLeaves() []*Leaf {
 		{Name: "*Level", Type: reflect.TypeOf((*Level)(nil)), Caps: CapRef | CapNamed,
 			Gen: func(r *fw.Rand, uniq int) reflect.Value { x := Level(uniq % 200); return rv(&x) }},
 		localNodePlainLeaf(), localNodeRefsLeaf(),
+		// durations inside map values, with an entry whose value is nil (the key is still part of the value)
+		{Name: "map[string][]duration", Type: reflect.TypeOf(map[string][]time.Duration{}), Caps: CapRef,
+			Gen: func(r *fw.Rand, uniq int) reflect.Value {
+				return rv(map[string][]time.Duration{"a": {time.Duration(uniq) * time.Second, time.Millisecond}, "none": nil})
+			}},
+		{Name: "map[string]*duration", Type: reflect.TypeOf(map[string]*time.Duration{}), Caps: CapRef,
+			Gen: func(r *fw.Rand, uniq int) reflect.Value {
+				d := time.Duration(uniq) * time.Second
+				return rv(map[string]*time.Duration{"read": &d, "write": nil})
+			}},
 		// a map keyed by pointers: the keys are references too
 		{Name: "map[*int]string", Type: reflect.TypeOf(map[*int]string{}), Caps: CapRef,
 			Gen: func(r *fw.Rand, uniq int) reflect.Value {
